@@ -299,3 +299,96 @@ class ElseIfCacheWrite(CacheWriteMixin, ElseIfEval):
 
 
 CONTRACTS += [ComparatorCacheWrite, ANDCacheWrite, ElseIfCacheWrite]
+
+
+# ---------------------------------------------------------------------------------------------------------------------
+# C04: the "keyword expression is being evaluated" flag of a variable is scoped to one evaluation
+from eqlvc.interp import State, Outcome, NEXT, CONTINUE, BREAK, RETURN, RAISE, GENEXIT  # noqa: E402
+from eqlvc.libmodel import LibModel, base_modenv, init_fields  # noqa: E402
+
+
+class KwargsExpressionFlag(LibModel):
+    """symbolic.Variable._evaluate_kwargs_expression_: while the keyword expression of the variable is evaluated the
+    variable answers with its plain domain (flag _evaluating_kwargs_expression_).  C04: however the evaluation ends -
+    exhausted, abandoned by the consumer at any of its yields (GeneratorExit), or by an exception out of the expression -
+    the flag is cleared again, so the next evaluation applies the keyword constraints; and it is set whenever the keyword
+    expression is asked for rows."""
+    qual = 'symbolic:Variable._evaluate_kwargs_expression_'
+    cls = 'Variable'
+    props = ('C04',)
+    modes = ('sound',)
+    track_abandon = True
+    trusted = ("the keyword expression's own _evaluate__ is an arbitrary generator that may raise (interface contract I is "
+               "not needed for this clause)",)
+
+    def modenv(self):
+        return base_modenv()
+
+    def setup(self, eng):
+        st = State()
+        st.fields = init_fields()
+        self.n = z3.Const('self', Z.Node)
+        self.kx = z3.Const('kwargs_expression', Z.Node)
+        st.locals['self'] = ZV(self.n, 'node')
+        st.ghost['self'] = self.n
+        st.locals['sources'] = eng.new_dict(st, Z.ZMap.fresh('sources'))
+        st.ghost['flag'] = C(False)
+        st.ghost['asked'] = 0
+        return [st]
+
+    def getattr(self, eng, st, recv, name):
+        if isinstance(recv, ZV) and recv.ty == 'node' and recv.t.eq(self.n):
+            if name == '_kwargs_expression_':
+                return [(st, ZV(self.kx, 'node'))]
+            if name == '_evaluating_kwargs_expression_':
+                return [(st, st.ghost['flag'])]
+        return super().getattr(eng, st, recv, name)
+
+    def setattr(self, eng, st, recv, name, v):
+        if isinstance(recv, ZV) and recv.ty == 'node' and recv.t.eq(self.n) and name == '_evaluating_kwargs_expression_':
+            st = st.clone()
+            st.ghost['flag'] = v
+            return [st]
+        return super().setattr(eng, st, recv, name, v)
+
+    def node__evaluate__(self, eng, st, recv, args, kwargs, node):
+        if not recv.t.eq(self.kx):
+            raise OutOfSubset("_evaluate__ of something else than the keyword expression", node)
+        flag = st.ghost['flag']
+        eng.oblige(st, "C04/kwflag/set-while-the-keyword-expression-is-evaluated", z3.BoolVal(isinstance(flag, C) and flag.v is True),
+                   line=node.lineno)
+        st = st.clone()
+        st.ghost['asked'] += 1
+        return [(st, Obj('kxstream', {}))]
+
+    def abstract_loop(self, eng, st, s, it, ordinal):
+        if isinstance(it, Obj) and it.kind == 'kxstream':
+            raised = st.clone()
+            raised.path.append('the-keyword-expression-raises')
+            outs = [Outcome(st), Outcome(raised, RAISE, C(Ref('exc', 'Exception')))]
+            b = st.clone()
+            row = eng.new_dict(b, Z.ZMap.fresh('row'))
+            b.fields['is_false'] = z3.FreshConst(b.fields['is_false'].sort(), 'is_false')
+            for b2 in eng.assign(s.target, row, b):
+                for o in eng.exec_block(s.body, b2):
+                    outs.append(Outcome(o.st) if o.sig in (NEXT, CONTINUE, BREAK) else o)
+            return outs
+        return super().abstract_loop(eng, st, s, it, ordinal)
+
+    def on_yield(self, eng, st, v, ordinal, node):
+        eng.oblige(st, f"cover@yield#{ordinal}", z3.BoolVal(True), kind='cover', line=node.lineno)
+        return [st]
+
+    def on_exit(self, eng, o):
+        st = o.st
+        flag = st.ghost['flag']
+        how = {NEXT: 'exhausted', RETURN: 'exhausted', RAISE: 'an-exception', GENEXIT: 'abandoned'}.get(o.sig, str(o.sig))
+        eng.oblige(st, f"C04/kwflag/cleared-when-the-evaluation-ends/{how}", z3.BoolVal(isinstance(flag, C) and flag.v is False))
+        if o.sig in (NEXT, RETURN):
+            eng.oblige(st, "C04/kwflag/the-keyword-expression-is-evaluated", z3.BoolVal(st.ghost['asked'] >= 1))
+
+    def signature(self, ob, model):
+        return {}
+
+
+CONTRACTS += [KwargsExpressionFlag]
